@@ -40,8 +40,8 @@ impl Property for C12 {
         vec!["every source length n<=min(capacity,320) x four value classes (incl. a small value in a long vector) x all 20x20 ordered type pairs x by-reference/by-value".into()]
     }
     fn enumerate(&self, tier: Tier, sh: &mut Shard, f: &mut dyn FnMut(C12Case) -> bool) {
-        for s in 0..NT {
-            for d in 0..NT {
+        for s in ROUTINE_TIDS {
+            for d in ROUTINE_TIDS {
                 if !sh.mine() {
                     continue;
                 }
@@ -71,7 +71,7 @@ impl Property for C12 {
             }
         }
         for s in [TID_D, TID_A] {
-            for d in 0..NT {
+            for d in ROUTINE_TIDS {
                 if !sh.mine() {
                     continue;
                 }
@@ -88,7 +88,53 @@ impl Property for C12 {
                 }
             }
         }
-        for s in 0..NT {
+        // the 70 400-bit fixed type as source and as destination
+        for (s, d) in [(TID_HUGE, TID_D), (TID_HUGE, TID_A), (TID_D, TID_HUGE), (TID_A, TID_HUGE), (TID_HUGE, TID_HUGE), (TID_HUGE, 18u8), (18u8, TID_HUGE), (TID_HUGE, 4u8), (12u8, TID_HUGE)] {
+            if !sh.mine() {
+                continue;
+            }
+            let sc = fixed_cap(s).unwrap_or(usize::MAX);
+            for n in [0usize, 131, 2560, 2561, 4097, 8193, 65535, 65537, 70399, 70400, 70401, 70464] {
+                if n > sc {
+                    continue;
+                }
+                let vals = if n == 0 { vec![Bits::new()] } else { vec![long_values(n)[1].clone(), long_values(n)[3].clone()] };
+                for a in vals {
+                    for prov in [Prov::Canon, Prov::Spare(200)] {
+                        for by_value in [false, true] {
+                            if !f(C12Case::Convert { a: Operand { ty: s, bits: a.clone(), prov: prov.clone() }, dst: d, by_value }) {
+                                return;
+                            }
+                        }
+                    }
+                }
+                if s == TID_HUGE && d == TID_D && n > 0 && !f(C12Case::Rebuild { a: Operand::canon(s, long_values(n)[1].clone()) }) {
+                    return;
+                }
+            }
+        }
+        // a geometric ladder of lengths up to megabits between the unbounded types (and into the
+        // 70 400-bit type, which must refuse), with and without spare capacity
+        for (t, n) in ladder_lengths(tier) {
+            if !sh.mine() {
+                continue;
+            }
+            let a = dense_value(n);
+            for (j, prov) in [Prov::Canon, Prov::Spare(64), Prov::Spare(9000), Prov::LongThenTrunc(130)].into_iter().enumerate() {
+                for d in [TID_D, TID_A] {
+                    if !f(C12Case::Convert { a: Operand { ty: t, bits: a.clone(), prov: prov.clone() }, dst: d, by_value: (j + n + d as usize) % 2 == 0 }) {
+                        return;
+                    }
+                }
+            }
+            if !f(C12Case::Convert { a: Operand::canon(t, a.clone()), dst: TID_HUGE, by_value: n % 2 == 0 }) {
+                return;
+            }
+            if t == TID_D && !f(C12Case::Rebuild { a: Operand { ty: t, bits: a.clone(), prov: Prov::Spare(200) } }) {
+                return;
+            }
+        }
+        for s in ROUTINE_TIDS {
             if !sh.mine() {
                 continue;
             }
